@@ -35,6 +35,7 @@
 #include "opm/input/eclipse/Parser/raw/StarToken.hpp"
 
 #include <algorithm>
+#include <cstdlib>
 #include <iostream>
 #include <sstream>
 
@@ -538,6 +539,8 @@ static int corr(uint64_t seed, const std::string& tier, const std::string& outdi
     }
     const std::string sentinel = "OIL";
     const int nKw = thorough ? 60000 : 8000;
+    struct PoolEntry { size_t kw; std::string text; };
+    std::vector<PoolEntry> pool;
     for (int n = 0; n < nKw && !kws.empty(); ++n) {
         const KwS& k = kws[r.below(kws.size())];
         auto schemaAt = [&](size_t i) -> const std::vector<ItemS>& {
@@ -634,6 +637,8 @@ static int corr(uint64_t seed, const std::string& tier, const std::string& outdi
             catch (...) { errors.clear(); ans = "err"; }
         }
         sink.count(ans == "err" ? "kw.parse.err" : "kw.parse.ok");
+        if (ans != "err" && pool.size() < 4000)
+            pool.push_back({static_cast<size_t>(&k - &kws[0]), prefix + k.name + "\n" + text});
         // (v) deck level writer: operator<<(ostream, Deck) against the model's mirror of the
         // DeckOutput state machine (default_count / row_count survive from record to record and
         // into a TITLE keyword).
@@ -670,6 +675,146 @@ static int corr(uint64_t seed, const std::string& tier, const std::string& outdi
                   (k.alt ? "1" : "0") + " " + (k.dbl ? "1" : "0") + " " + k.schemas + " " + names + " " + hex(sentinel) + " " + hex(text), ans);
     }
 
+    // (vi) deck level: several keywords, END, and INCLUDE splitting into temporary files, real
+    // Parser::parseString against the model's keyword loop (`Deck.parseLoop`).
+    {
+        auto sizeSpec = [&](const KwS& k) -> std::string {
+            if (!k.dimsKw.empty()) return "O" + hex(k.dimsKw) + "." + std::to_string(k.dimsItem) + "." + (k.st == 'T' ? "T" : "F");
+            switch (k.st) { case 'S': return "S"; case 'U': return "U"; case 'D': return "D"; default: return "F" + std::to_string(k.size); }
+        };
+        auto kwDef = [&](const std::string& name, const std::string& size, bool raw, const std::string& mn, bool alt, bool dbl, const std::string& schemas) {
+            return hex(name) + "=" + size + "," + (raw ? "1" : "0") + "," + mn + "," + (alt ? "1" : "0") + "," + (dbl ? "1" : "0") + "," + schemas;
+        };
+        // definitions of helper keywords taken from the real parser
+        auto helperDef = [&](const std::string& name) -> std::string {
+            const auto& kw = parser.getKeyword(name);
+            std::string sch;
+            for (auto it = kw.begin(); it != kw.end(); ++it) {
+                std::vector<ItemS> rs;
+                for (const auto& pi : *it) { ItemS s2; if (!dumpItem(pi, s2)) return ""; rs.push_back(s2); }
+                if (!sch.empty()) sch += "|";
+                sch += schemaString(rs);
+            }
+            if (sch.empty()) sch = "none";
+            if (!kw.hasFixedSize()) return "";
+            return kwDef(name, "F" + std::to_string(kw.getFixedSize()), false, kw.min_size().has_value() ? std::to_string(*kw.min_size()) : "-", false, false, sch);
+        };
+        const std::string tmpdir = outdir + "/tmp";
+        std::string mk = "mkdir -p '" + tmpdir + "'";
+        if (std::system(mk.c_str()) != 0) { std::cerr << "cannot create " << tmpdir << "\n"; return 2; }
+        const int nDecks = thorough ? 6000 : 800;
+        for (int n = 0; n < nDecks && pool.size() >= 4; ++n) {
+            int nk = r.range(2, 5);
+            std::vector<std::string> parts;      // whole keywords
+            std::vector<size_t> used;
+            for (int i = 0; i < nk; ++i) {
+                const auto& pe = pool[r.below(pool.size())];
+                parts.push_back(pe.text);
+                used.push_back(pe.kw);
+            }
+            bool withEnd = r.coin(1, 6);
+            size_t endAt = withEnd ? r.below(parts.size() + 1) : parts.size() + 1;
+            // INCLUDE splitting: a run of whole keywords goes to a file
+            std::vector<std::pair<std::string, std::string>> files;
+            std::string main;
+            size_t i = 0; int fileNo = 0;
+            while (i < parts.size()) {
+                if (i == endAt) main += "END\n";
+                if (r.coin(1, 3)) {
+                    size_t len = 1 + r.below(std::min<size_t>(2, parts.size() - i));
+                    std::string content;
+                    for (size_t j = i; j < i + len; ++j) { if (j == endAt && j != i) content += "END\n"; content += parts[j]; }
+                    // nested include now and then
+                    if (r.coin(1, 5) && i + len < parts.size()) {
+                        std::string inner = tmpdir + "/d" + std::to_string(n) + "_" + std::to_string(fileNo++) + ".inc";
+                        vh::spit(inner, parts[i + len]);
+                        files.push_back({inner, parts[i + len]});
+                        content += std::string(r.coin() ? "INCLUDE\n" : "include -- nested\n") + " '" + inner + "' /\n";
+                        ++len;
+                    }
+                    std::string path = tmpdir + "/d" + std::to_string(n) + "_" + std::to_string(fileNo++) + ".inc";
+                    if (r.coin(1, 4) && !content.empty() && content.back() == '\n') content.pop_back();   // file without final newline
+                    vh::spit(path, content);
+                    files.push_back({path, content});
+                    main += std::string("INCLUDE\n") + (r.coin() ? " '" : "'") + path + (r.coin() ? "' /\n" : "'/ text\n");
+                    i += len;
+                } else { main += parts[i]; ++i; }
+            }
+            if (endAt == parts.size()) main += "END\n";
+            if (withEnd && r.coin()) main += "GARBAGE after END 'x /\n";
+
+            // table of the keywords involved
+            std::vector<std::string> defs;
+            std::vector<std::string> names;
+            auto addDef = [&](const std::string& nm, const std::string& d) {
+                if (d.empty() || std::find(names.begin(), names.end(), nm) != names.end()) return;
+                names.push_back(nm); defs.push_back(d);
+            };
+            bool okDefs = true;
+            for (size_t u : used) {
+                const KwS& k = kws[u];
+                addDef(k.name, kwDef(k.name, sizeSpec(k), k.raw, k.mn, k.alt, k.dbl, k.schemas));
+                if (!k.dimsKw.empty()) { std::string d = helperDef(k.dimsKw); if (d.empty()) okDefs = false; addDef(k.dimsKw, d); }
+            }
+            for (const char* h : {"OIL", "END", "INCLUDE"}) { std::string d = helperDef(h); if (d.empty()) okDefs = false; addDef(h, d); }
+            if (!okDefs) { sink.count("deck.skipped"); continue; }
+            std::string defArg;
+            for (size_t j = 0; j < defs.size(); ++j) { if (j) defArg += "~"; defArg += defs[j]; }
+
+            // recognised names among the first words of all lines
+            std::string recNames = "-";
+            {
+                std::vector<std::string> found;
+                auto scan = [&](const std::string& t) {
+                    size_t pos = 0;
+                    while (pos <= t.size()) {
+                        size_t e = t.find('\n', pos); if (e == std::string::npos) e = t.size();
+                        std::string line = Opm::verif::lex_trim(Opm::verif::lex_strip_comments(t.substr(pos, e - pos)));
+                        std::string dn = Opm::verif::lex_make_deck_name(line);
+                        bool rec = false;
+                        try { rec = !dn.empty() && parser.isRecognizedKeyword(dn); } catch (...) { rec = false; }
+                        if (rec && std::find(found.begin(), found.end(), dn) == found.end()) found.push_back(dn);
+                        pos = e + 1;
+                    }
+                };
+                scan(main);
+                for (const auto& f : files) scan(f.second);
+                std::string s2;
+                for (size_t j = 0; j < found.size(); ++j) { if (j) s2 += ","; s2 += hex(found[j]); }
+                if (!s2.empty()) recNames = s2;
+            }
+            std::string fileArg = "-";
+            {
+                std::string s2;
+                for (size_t j = 0; j < files.size(); ++j) { if (j) s2 += ","; s2 += hex(files[j].first) + "=" + hex(files[j].second); }
+                if (!s2.empty()) fileArg = s2;
+            }
+            std::string ans;
+            {
+                Opm::ParseContext ctx; Opm::ErrorGuard errors;
+                try {
+                    auto deck = parser.parseString(main, ctx, errors);
+                    errors.clear();
+                    ans = "ok ";
+                    if (deck.size() == 0) ans += "-";
+                    for (size_t j = 0; j < deck.size(); ++j) {
+                        const auto& dk = deck[j];
+                        if (j) ans += "~";
+                        ans += hex(dk.name()) + "=";
+                        if (dk.size() == 0) ans += "none";
+                        for (size_t q = 0; q < dk.size(); ++q) { if (q) ans += "|"; ans += dumpRecord(dk.getRecord(q), false); }
+                    }
+                } catch (const std::exception&) { errors.clear(); ans = "err"; }
+                catch (...) { errors.clear(); ans = "err"; }
+            }
+            sink.count(ans == "err" ? "deck.parse.err" : "deck.parse.ok");
+            sink.count("deck.include_files", static_cast<long>(files.size()));
+            if (withEnd) sink.count("deck.with_END");
+            sink.emit("deck.deck 100000 " + defArg + " " + recNames + " " + fileArg + " " + hex(main), ans);
+            for (const auto& f : files) std::remove(f.first.c_str());
+        }
+    }
+
     sink.writeStats(outdir + "/stats.json");
     return 0;
 }
@@ -683,7 +828,7 @@ static int canon(const std::string& in, const std::string& outp) {
         size_t i = 0;
         while (i < line.size()) {
             // value starts at line start or after ',' / ';'
-            auto delim = [](char c) { return c == ',' || c == ';' || c == '|' || c == ' '; };
+            auto delim = [](char c) { return c == ',' || c == ';' || c == '|' || c == ' ' || c == '=' || c == '~'; };
             bool atStart = (i == 0) || delim(line[i - 1]);
             if (atStart && i + 2 < line.size() && (line[i] == 'D' || line[i] == 'F') && (line[i + 1] == 'd' || line[i + 1] == 'n') && line[i + 2] == 't') {
                 size_t j = i + 3;
